@@ -60,7 +60,8 @@ mod date_format {
         }
 
         let year: i32 = s[0..2].parse::<i32>().map_err(serde::de::Error::custom)?;
-        let year = if year >= 80 { 1900 + year } else { 2000 + year };
+        // Same century window as parse_date_yymmdd (MT side): 00-49 -> 20yy, 50-99 -> 19yy
+        let year = if year >= 50 { 1900 + year } else { 2000 + year };
         let month: u32 = s[2..4].parse().map_err(serde::de::Error::custom)?;
         let day: u32 = s[4..6].parse().map_err(serde::de::Error::custom)?;
 
